@@ -1,4 +1,4 @@
-/* C06 reduce: the real start_reduce / start_deterministic_reduce task code run by a sequential "task bag" that stands in
+/* C06 reduce/scan: the real start_reduce / start_deterministic_reduce / start_scan.. task code run by a sequential "task bag" that stands in
  * for the scheduler (r1:: entry points below are the only stubs). Tasks are atomic except that, while a task is inside the
  * user body, the harness may run other tasks of the bag to completion (NEST levels deep): that is what a second / third
  * thread stealing and running the right sibling during the left leaf looks like.
@@ -7,8 +7,10 @@
  *   NESTMASK bit h = during the h-th body invocation (global count) other tasks run (NESTK of them, NESTPOL oldest/newest)
  * (a symbolic task choice makes every task pointer, hence every loop bound in the task code, symbolic: no verdict, see NOTES).
  *   CANCEL k     = the group is cancelled just before the k-th observation point (context poll or task dispatch); 0 = never
- *   STOLEN bit i  = (affinity partitioner only) the i-th dispatched task is stolen; otherwise symbolic
- * Symbolic inside one query: whether each task counts as stolen (execution slot != original slot).
+ *   STOLEN bit i  = the i-th task taken from the bag runs on another slot than it was spawned from (is_stolen_task);
+ *                   undefined = symbolic per task (used only with simple_partitioner, which ignores it)
+ *   MAXCONC       = r1::max_concurrency (initial divisor of auto/static/affinity partitioners)
+ * With -DDETERMINISTIC the algorithm is parallel_deterministic_reduce (two runs compared), with -DSCAN parallel_scan (w_scan.cpp).
  *
  * Oracle (free-monoid body, see w_reduce.cpp): result sequence == 0,1,..,NELEM-1 exactly (every operand once, in order);
  * a split-off body is joined only into the body it was split from, at most once, while neither is running, never after it
